@@ -116,25 +116,27 @@ def boundary_labels_ok(obj):
 def abstract_key(obj):
     """gauge abstraction: everything the library's gauge code branches on, numeric entries dropped"""
     n = obj.site_num
-    flags = []
-    for i in range(n):
-        t = raw(obj, i)
-        flags.append((left_iso_dev(t) < 1e-8, right_iso_dev(t) < 1e-8))
+    # the library branches on exactly two chain-level predicates (check_left_canonical: sites 0..n-2 left isometries,
+    # check_right_canonical: sites 1..n-1 right isometries); they are recomputed here from the raw tensors
+    lc = all(left_iso_dev(raw(obj, i)) < 1e-8 for i in range(n - 1))
+    rc = all(right_iso_dev(raw(obj, i)) < 1e-8 for i in range(1, n))
+    flags = (lc, rc)
     c = getattr(obj, "coeff", 1)
     cc = "1" if c == 1 else ("re" if abs(np.imag(c)) == 0 else "cx")
-    return (kind_of(obj), "c" if obj.is_complex else "r", obj.qnidx, obj.to_right, tuple(flags), tuple(obj.bond_dims), cc,
+    return (kind_of(obj), "c" if obj.is_complex else "r", obj.qnidx, obj.to_right, flags, tuple(obj.bond_dims), cc,
             tuple(np.asarray(obj.qntot).reshape(-1).tolist()))
 
 
 # --------------------------------------------------------------------------------------------- state
 
 class State:
-    __slots__ = ("regs", "sh", "trace")
+    __slots__ = ("regs", "sh", "trace", "aux")
 
     def __init__(self):
         self.regs = {}
         self.sh = {}
         self.trace = []
+        self.aux = {}     # harness bookkeeping that is part of the (abstract) state
 
     def clone(self):
         s = State()
@@ -149,10 +151,11 @@ class State:
         s.regs = copy.deepcopy(self.regs, memo)
         s.sh = {k: v.copy() for k, v in self.sh.items()}
         s.trace = list(self.trace)
+        s.aux = dict(self.aux)
         return s
 
     def key(self):
-        return tuple((k, abstract_key(v)) for k, v in sorted(self.regs.items()))
+        return tuple((k, abstract_key(v)) for k, v in sorted(self.regs.items())) + tuple(sorted(self.aux.items(), key=repr))
 
 
 def call(fn, *a, **k):
@@ -172,7 +175,7 @@ def call(fn, *a, **k):
         raise
 
 
-PRECONDITION_FUNCS = {"canonicalise", "compress", "add", "apply"}
+PRECONDITION_FUNCS = {"canonicalise", "compress", "add", "apply", "variational_compress", "contract"}
 WRAPPER_FUNCS = {"__sub__", "__add__", "__matmul__"}
 
 
@@ -319,6 +322,7 @@ def explore_bfs(init_state, actions, invariants, max_states=20000, stats=None, n
                 sk = (st.key(), a.name)
                 if sk in succ and succ[sk] != k:
                     stats["nondeterministic_abstract_successors"] += 1
+                    stats.setdefault("conflict_examples", []).append((st.trace + [a.name], succ[sk], k))
                 succ[sk] = k
                 if k not in seen:
                     if len(seen) >= max_states:
